@@ -90,6 +90,8 @@ def main():
             ck.spec_failure('wrappers-first', 'wrapper indices are not 1..n', replay)
         if res['links'] != '1':
             ck.spec_failure('links', 'function->wrapper link without matching wrapper->function link', replay)
+        if res.get('flags') != '1':
+            ck.spec_failure('links:flag-without-reference', 'an element flag announces a function the element does not name, or the reverse (verified checker flagsb = false)', replay)
         d = dbfile.parse(data, fl['Type.F_array'])
         # a flag that announces a cross reference and the reference itself go together: "has a return value" <-> a return type,
         # "has a setter / getter / ..." <-> a function index (a flag without its index is a reference to nothing)
